@@ -775,6 +775,13 @@ class Engine:
         # literals get stable distinct ids (hash of the text, tagged in the top byte)
         import hashlib
 
+        raw = lit.encode("utf-8", "replace")
+        if len(raw) <= 4 and all(0x21 <= c <= 0x7E for c in raw):
+            # same canonical identity as Src.short_string so that short literals compare correctly with byte-level strings
+            padded = list(raw) + [0] * (4 - len(raw))
+            ident = (len(raw) << 32) | (padded[0] << 24) | (padded[1] << 16) | (padded[2] << 8) | padded[3]
+            from values import VSeq as _VSeq
+            return VStr(bv(ident, 64), lit, _VSeq([bv(c, 8) for c in padded], bv(len(raw), 64)))
         h = int.from_bytes(hashlib.sha256(lit.encode()).digest()[:7], "big") | (0xFE << 56)
         return VStr(bv(h, 64), lit)
 
@@ -1156,6 +1163,8 @@ class Engine:
         raise SymError("unsupported cast kind " + ck)
 
     def str_len(self, s):
+        if getattr(s, "bytes", None) is not None:
+            return s.bytes.len
         if s.lit is not None:
             return bv(len(s.lit.encode("utf-8", "replace")), 64)
         f = z3.Function("strlen", z3.BitVecSort(64), z3.BitVecSort(64))
